@@ -134,6 +134,57 @@ Proof.
   cbn [fst]. rewrite !forallb_app, A, B, (ready_decouple_v_models _ (C _ eq_refl)). reflexivity.
 Qed.
 
+(* attribute lists stay lists of attributes and spreads *)
+Definition attr_shape (x : node) : bool := match x with JAttr _ _ | Spread _ => true | _ => false end.
+
+Lemma ready_attr_of l : forallb ready l = true -> forallb attr_shape l = true -> forallb ready_attr l = true.
+Proof.
+  induction l as [|x r IH]; [reflexivity|]. cbn [forallb]. intros H1 H2.
+  apply andb_true_iff in H1. apply andb_true_iff in H2. destruct H1 as [A1 B1], H2 as [A2 B2].
+  rewrite (IH B1 B2), andb_true_r. destruct x; try discriminate A2; exact A1.
+Qed.
+
+Lemma shape_decouple_v_models elems : forallb attr_shape (decouple_v_models elems) = true.
+Proof.
+  induction elems as [|x r IH]; [reflexivity|]. cbn [decouple_v_models].
+  destruct x; try exact IH.
+  match goal with |- context [if ?b then _ else _] => destruct b; [exact IH|] end.
+  match goal with |- context [match ?e with Arr _ => _ | _ => _ end] => destruct e end; try exact IH.
+  cbn [forallb]. rewrite IH, andb_true_r. unfold decouple_one.
+  match goal with |- context [match ?a with Some _ => _ | None => _ end] => destruct a end; reflexivity.
+Qed.
+
+Lemma split_at_vmodels_shape attrs pre v post :
+  split_at_vmodels attrs = Some (pre, v, post) -> forallb attr_shape attrs = true ->
+  forallb attr_shape pre = true /\ forallb attr_shape post = true.
+Proof.
+  revert pre v post. induction attrs as [|a r IH]; intros pre v post Hs Hr; [discriminate|].
+  cbn [forallb] in Hr. apply andb_true_iff in Hr. destruct Hr as [Ha Hr].
+  assert (Hdef : forall pre0, (match split_at_vmodels r with
+                   | Some (pre1, v', post1) => Some (a :: pre1, v', post1)
+                   | None => None end) = Some (pre0, v, post) ->
+                 forallb attr_shape pre0 = true /\ forallb attr_shape post = true).
+  { intros pre0 H. destruct (split_at_vmodels r) as [[[p1 v1] q1]|] eqn:E1; [|discriminate].
+    inversion H; subst. destruct (IH _ _ _ eq_refl Hr) as (A & B).
+    split; [cbn [forallb]; rewrite Ha, A; reflexivity|exact B]. }
+  cbn [split_at_vmodels] in Hs. destruct a; try (apply Hdef; exact Hs).
+  match type of Hs with context [JAttr ?nm ?val] => destruct nm; try (apply Hdef; exact Hs) end.
+  match type of Hs with context [if ?c then _ else _] => destruct c end; [|apply Hdef; exact Hs].
+  inversion Hs; subst. split; [reflexivity|exact Hr].
+Qed.
+
+Lemma shape_decouple attrs s :
+  forallb attr_shape attrs = true -> forallb attr_shape (fst (decouple_attrs attrs s)) = true.
+Proof.
+  intros H. unfold decouple_attrs.
+  destruct (split_at_vmodels attrs) as [[[pre v] post]|] eqn:E1; [|exact H].
+  destruct (split_at_vmodels_shape _ _ _ _ E1 H) as (A & B).
+  assert (Hpp : forallb attr_shape (pre ++ post) = true) by (rewrite forallb_app, A, B; reflexivity).
+  destruct v; try exact Hpp.
+  match goal with |- context [match ?e with JEmpty => _ | _ => _ end] => destruct e end; try exact Hpp.
+  cbn [fst]. rewrite !forallb_app, A, B, shape_decouple_v_models. reflexivity.
+Qed.
+
 Lemma Sj_decouple attrs s : Sj s -> Sj (snd (decouple_attrs attrs s)).
 Proof.
   intros H. unfold decouple_attrs. destruct (split_at_vmodels attrs) as [[[pre v] post]|]; [|exact H].
@@ -215,6 +266,21 @@ Proof.
   rewrite (A2 G2), andb_true_r.
   destruct Hq as [-> | ->]; [|apply D1; [exact G1|reflexivity]].
   apply C1; [exact G1|]. destruct x; try discriminate G1; reflexivity.
+Qed.
+
+Lemma visit_jsx_list_shape l : forall s,
+  forallb (gram PAttr) l = true -> forallb attr_shape (fst (visit_jsx_list_with V l s)) = true.
+Proof.
+  induction l as [|x r IH]; intros s G; [reflexivity|].
+  cbn [forallb] in G. apply andb_true_iff in G. destruct G as [G1 G2].
+  cbn [visit_jsx_list_with].
+  assert (HX : attr_shape (fst (V (jsx_item_mode x) x s)) = true).
+  { destruct x; try discriminate G1; unfold V; cbn [visit jsx_item_mode].
+    - match goal with |- context [visit ?a ?b ?c ?d ?e ?f] => destruct (visit a b c d e f) end. reflexivity.
+    - match goal with |- context [visit ?a ?b ?c ?d ?e ?f] => destruct (visit a b c d e f) end. reflexivity. }
+  destruct (V (jsx_item_mode x) x s) as [x' s1]. cbn [fst] in HX.
+  specialize (IH s1 G2). destruct (visit_jsx_list_with V r s1) as [r' s2]. cbn [fst forallb] in *.
+  rewrite HX, IH. reflexivity.
 Qed.
 
 (* a generic object keeps its type tag *)
@@ -374,14 +440,17 @@ Proof.
   - (* JsxE *)
     intros nm ats sc ta ch cl Hnm Hats Hta Hch Hcl m s HS. opening.
     destruct (visit_jsx_list_plain PAttr ats (or_introl eq_refl) Hats s HS) as [S1 A1].
-    destruct (visit_jsx_list_with V ats s) as [ats' s1]. cbn [fst snd] in *.
+    pose proof (visit_jsx_list_shape ats s) as SH1.
+    destruct (visit_jsx_list_with V ats s) as [ats' s1] eqn:EVA. cbn [fst snd] in *.
     pose proof (Sj_decouple ats' s1 S1) as S2. pose proof (ready_decouple ats' s1) as A2.
+    pose proof (shape_decouple ats' s1) as SH2.
     destruct (decouple_attrs ats' s1) as [ats'' s2]. cbn [fst snd] in *.
     destruct (visit_jsx_list_plain PChild ch (or_intror eq_refl) Hch s2 S2) as [S3 A3].
     destruct (visit_jsx_list_with V ch s2) as [ch' s3]. cbn [fst snd] in *.
     assert (Hready : gram PExpr (JsxE nm ats sc ta ch cl) = true ->
                      ready (JsxE nm ats'' sc ta ch' cl) = true).
-    { intros G. gsplit G. cbn [ready]. rewrite !ready_list. andsplit. }
+    { intros G. gsplit G. cbn [ready]. rewrite ready_list, ready_attrs_list. andsplit.
+      apply ready_attr_of; auto. }
     assert (Hlow : Claim (JsxE nm ats sc ta ch cl) MExpr (lower_el E (JsxE nm ats'' sc ta ch' cl) s3)).
     { split; [exact (grow_Sj _ _ (lower_el_grow E _ s3) S3)|]. split; [|vac].
       intros G _. apply lower_el_jsx_free; [reflexivity|exact (Hready G)]. }
